@@ -24,7 +24,7 @@ var assumptions = []string{
 var sess *vf.Session
 
 func opts() restarteng.GenOpts {
-	o := restarteng.GenOpts{Crash: true, MaxTables: 8, MaxCols: 6, SpecialKind: []string{dbh.IdxUniqSkip}, Prof: sqlgen.Profile{MaxStr: 60}, ManyTablesPct: 12, BigJoinPct: 4, BigLogPct: 2}
+	o := restarteng.GenOpts{Crash: true, MaxTables: 8, MaxCols: 6, SpecialKind: []string{dbh.IdxUniqSkip}, Prof: sqlgen.Profile{MaxStr: 60}, ManyTablesPct: 12, BigJoinPct: 4, EmptyFirstPct: 3, BigLogPct: 2}
 	if sess != nil && sess.Tier == "thorough" {
 		o.ChurnPct = 2 // (too expensive for the quick tier) a helper table is filled and thinned out: index nodes run empty, page ids are recycled
 	}
